@@ -72,6 +72,8 @@ public:
    * </ul>
    */
   double getFunctionValue() const override;
+
+  double optimize() override; // redefinition: ends on the best inner point
   /** @} */
 
   void doInit(const ParameterList& params) override;
